@@ -25,6 +25,7 @@ RULE = (
     "estimator with the identical model, sensor models, calibration and config whose noise maps name exactly the original "
     "controls / sensors / readings with finite magnitudes and strictly positive process noise. distinct = (estimator, "
     "operation); non-trivial = all."
+    " Fits are also run from three configurations in which every field differs from its default (incl. extra_validation=True)."
 )
 ASSUMPTIONS = ["scipy.optimize.minimize is deterministic for fixed inputs", "training matrices are finite with dyadic entries"]
 
